@@ -313,6 +313,9 @@ func checkC04(e *Env) {
 		}
 	})
 
+	// the concurrent flavour of this monitor (C12 is the full treatment)
+	concCalls := e.concurrentSmoke(drv, "C04", e.smokePool("C04", "seed"), e.pick(2, 12), e.pick(25, 100))
+
 	// known-finding witnesses (D3): exact inputs listed in KNOWN_FINDINGS.txt
 	for _, f := range e.KnownKeys() {
 		kv := parseKey(f.Key)
@@ -341,16 +344,17 @@ func checkC04(e *Env) {
 		fatalInconclusive("C04: no case in which NFKD changes the passphrase was explored")
 	}
 	e.WriteEvidence("exploration", map[string]any{
-		"evaluations":               stats.Ops,
-		"distinct_nontrivial":       dist.Len(),
-		"rule":                      "a case is a pair (mnemonic, passphrase) of valid-UTF-8 strings over CPython-assigned code points with non-starter runs <= 25: empty/ASCII, valid and invalid mnemonics of all ten languages, lengths around and far beyond the 128-byte HMAC block for either argument, NFC/NFD/NFKC/NFKD spellings, compatibility characters, mark sequences in non-canonical order, arguments beginning with combining marks, Hangul syllables/jamo, seeded random strings (80 % decomposing or combining code points); every case is compared with PBKDF2 written out over crypto/hmac with CPython's NFKD; histories of seed calls in one process (identical arguments, almost identical ones, the same concatenation split at another place between mnemonic and passphrase); one case in eight also observes freshness (two calls, second result clobbered, first re-read, backing arrays compared); distinct = distinct (mnemonic, passphrase)",
-		"samples":                   smp.List(),
-		"cases_by_class":            classes.Map(),
-		"observations":              stat.Map(),
-		"python_normalisations":     e.Py().Calls,
-		"unicode_version_of_oracle": e.Uni().Version,
-		"assigned_code_points":      e.Uni().Assigned,
-		"children":                  stats.Children,
+		"evaluations":                      stats.Ops,
+		"distinct_nontrivial":              dist.Len(),
+		"calls_repeated_under_concurrency": concCalls,
+		"rule":                             "a case is a pair (mnemonic, passphrase) of valid-UTF-8 strings over CPython-assigned code points with non-starter runs <= 25: empty/ASCII, valid and invalid mnemonics of all ten languages, lengths around and far beyond the 128-byte HMAC block for either argument, NFC/NFD/NFKC/NFKD spellings, compatibility characters, mark sequences in non-canonical order, arguments beginning with combining marks, Hangul syllables/jamo, seeded random strings (80 % decomposing or combining code points); every case is compared with PBKDF2 written out over crypto/hmac with CPython's NFKD; histories of seed calls in one process (identical arguments, almost identical ones, the same concatenation split at another place between mnemonic and passphrase); one case in eight also observes freshness (two calls, second result clobbered, first re-read, backing arrays compared); distinct = distinct (mnemonic, passphrase)",
+		"samples":                          smp.List(),
+		"cases_by_class":                   classes.Map(),
+		"observations":                     stat.Map(),
+		"python_normalisations":            e.Py().Calls,
+		"unicode_version_of_oracle":        e.Uni().Version,
+		"assigned_code_points":             e.Uni().Assigned,
+		"children":                         stats.Children,
 	}, []string{
 		"CPython unicodedata (Unicode 14.0) NFKD on assigned code points is UAX #15 NFKD; decompositions are stable across Unicode versions",
 		"crypto/hmac and crypto/sha512 of the Go standard library; the harness PBKDF2 loop (self-tested on the published Trezor and bip32JP vectors)",
